@@ -79,6 +79,11 @@ pub struct Qp {
     pub type_default: u8,
     pub types: Vec<(usize, u8)>,
     pub var_names: Vec<(usize, String)>,
+    /// starting point sections x^0, y^0 (one entry per constraint), z^0: (default text, non-default (index, text)); they
+    /// are read and ignored by the conversion, but they are part of a well-formed file
+    pub x0: (String, Vec<(usize, String)>),
+    pub y0: (String, Vec<(usize, String)>),
+    pub z0: (String, Vec<(usize, String)>),
 }
 
 /// all entries of one matrix scaled by 2^exp (exact): a badly scaled but perfectly legal file
@@ -141,6 +146,30 @@ pub fn gen_qp(t: &mut Tape, code: usize, ctx: &mut Ctx) -> Qp {
     let ckind = CON_KINDS[code % 6];
     let n = 1 + t.choice(5);
     let m = if matches!(ckind, 'N' | 'B') { 0 } else { t.choice(5) };
+    // starting points (drawn early, derived from one byte): none, or non-default entries at the first / last index of each
+    // section (the last constraint index may exceed the number of variables)
+    let start_seed = if t.p(48) { 1 + t.byte() as usize % 255 } else { 0 };
+    let start = |len: usize, k: usize| -> (String, Vec<(usize, String)>) {
+        if start_seed == 0 || len == 0 {
+            return ("0.0".to_string(), vec![]);
+        }
+        let vals = ["1", "-2.5", "0.125", "3e0", "7"];
+        let mut e = vec![];
+        if (start_seed >> k) & 1 == 1 {
+            e.push((len - 1, vals[(start_seed + k) % 5].to_string()));
+        }
+        if (start_seed >> (k + 3)) & 1 == 1 && len >= 2 {
+            e.insert(0, (0, vals[(start_seed + k + 2) % 5].to_string()));
+        }
+        (vals[(start_seed / 7 + k) % 5].to_string(), e)
+    };
+    let (x0, y0, z0) = (start(n, 0), start(m, 1), start(n, 2));
+    if !x0.1.is_empty() || !y0.1.is_empty() || !z0.1.is_empty() {
+        ctx.label("non-default-starting-point-entries");
+        if y0.1.iter().any(|(i, _)| *i >= n) {
+            ctx.label("starting-multiplier-for-a-constraint-index-beyond-the-variables");
+        }
+    }
     let q0 = match okind {
         'L' => vec![],
         'D' => gen_entries(t, n, true, 4, ctx),
@@ -281,7 +310,12 @@ pub fn gen_qp(t: &mut Tape, code: usize, ctx: &mut Ctx) -> Qp {
         b0_default,
         b0,
         q0_const,
-        cons,
+        cons: {
+            if !cons.is_empty() && cons.iter().all(|c: &QCon| c.b.is_empty()) {
+                ctx.label("constraints-but-no-linear-constraint-term");
+            }
+            cons
+        },
         threshold_text,
         cl_default,
         cu_default,
@@ -292,6 +326,9 @@ pub fn gen_qp(t: &mut Tape, code: usize, ctx: &mut Ctx) -> Qp {
         type_default,
         types,
         var_names,
+        x0,
+        y0,
+        z0,
     }
 }
 
@@ -485,14 +522,23 @@ pub fn write_qplib(qp: &Qp, comments: bool, blanks: bool, trailing: bool, case_s
             w.entry(&format!("type-entry-{k}"), &[*i], &ty.to_string());
         }
     }
-    w.val("x0-default", "0.0", "default x^0");
-    w.val("x0-count", "0", "non-default x^0");
-    if has_cons {
-        w.val("y0-default", "0.0", "default y^0");
-        w.val("y0-count", "0", "non-default y^0");
+    w.val("x0-default", &qp.x0.0, "default x^0");
+    w.val("x0-count", &qp.x0.1.len().to_string(), "non-default x^0");
+    for (k, (i, v)) in qp.x0.1.iter().enumerate() {
+        w.entry(&format!("x0-entry-{k}"), &[*i], v);
     }
-    w.val("z0-default", "0.0", "default z^0");
-    w.val("z0-count", "0", "non-default z^0");
+    if has_cons {
+        w.val("y0-default", &qp.y0.0, "default y^0");
+        w.val("y0-count", &qp.y0.1.len().to_string(), "non-default y^0");
+        for (k, (i, v)) in qp.y0.1.iter().enumerate() {
+            w.entry(&format!("y0-entry-{k}"), &[*i], v);
+        }
+    }
+    w.val("z0-default", &qp.z0.0, "default z^0");
+    w.val("z0-count", &qp.z0.1.len().to_string(), "non-default z^0");
+    for (k, (i, v)) in qp.z0.1.iter().enumerate() {
+        w.entry(&format!("z0-entry-{k}"), &[*i], v);
+    }
     w.val("vnames-count", &qp.var_names.len().to_string(), "non-default variable names");
     for (k, (i, nm)) in qp.var_names.iter().enumerate() {
         w.entry(&format!("vname-entry-{k}"), &[*i], nm);
